@@ -488,6 +488,7 @@ func (h *H) fetch(d ocispec.Descriptor) {
 // the listings of every subject with the latest live listing.
 func (h *H) reopenCheck() {
 	if len(h.lastList) == 0 {
+		h.reopen = "not-compared(no successful listing)"
 		return
 	}
 	h.guard("NewOCIRepository", func() {
